@@ -28,17 +28,18 @@ import impl
 import scan_units
 
 ID = 'C05'
-EXTRA_MODULES = ['Mistletoe.Proofs.Locality', 'Mistletoe.Proofs.LocalityLists']
+EXTRA_MODULES = ['Mistletoe.Proofs.Locality', 'Mistletoe.Proofs.LocalityLists', 'Mistletoe.Proofs.DocLevel']
 RULE = ('pairs (A, B) of spec examples, mutations, splices, random documents and strings, and of short sequences of marker-like '
         'lines followed by a paragraph that uses a label (A) with an indented would-be definition of that label (B), such that A ends in a closed block '
         '(paragraph, heading, thematic break, block quote, table) and neither defines link references; both as str. '
         'Distinct by pair; non-trivial when B has a container or a multi-line block')
 TRUSTED = ['the exporter (harness/export.py) as canonical AST observation incl. line numbers']
 ASSUMPTIONS = []
-PARTIAL = ['the theorems are about the block phase; class-level scratch (Heading.level, CodeFence._open_info, '
-           'HtmlBlock._end_cond) is modelled as recomputed from the line start() was called on, and that modelling is what the '
-           'block.buffer correspondence on concatenated documents checks; the token constructors and the inline phase are a '
-           'function of the buffer and the definitions (none here)']
+PARTIAL = ['proved for the block phase AND for the token tree Document(lines) returns (Props/C05_Document.lean: A\'s blocks followed by '
+           'B\'s blocks with every line number at every depth shifted; exceptions of the inline phase included; the general form '
+           'with definitions too); class-level scratch (Heading.level, CodeFence._open_info, HtmlBlock._end_cond) is modelled as '
+           'recomputed from the line start() was called on, and that modelling is what the block.buffer correspondence on '
+           'concatenated documents checks']
 
 CLOSED = ('Paragraph', 'Heading', 'SetextHeading', 'ThematicBreak', 'Quote', 'Table')
 
